@@ -1023,6 +1023,54 @@ def print_query(propset, pmode, n, D, root, tcap=40, timeout=2400, extra=None, n
                        "capacity": "symbolic 0..%d" % tcap if pmode == 1 else tcap}, group="h_print.m%d" % pmode)
 
 
+def bigprint_query(bp, root, blen, timeout=1500):
+    """to_string (bp=1) / print (bp=2) over one BYTES value of blen bytes: the hex loops unwound completely"""
+    cb = "_binson_print_cb" if bp == 2 else "_binson_to_string_cb"
+    rfp = [("_advance_parsing.function_pointer_call.%d" % i, cb) for i in (1, 2, 3)]
+    return Query("bigprint.%s.B%d.%s" % ("to_string" if bp == 1 else "print", blen, "obj" if root == 1 else "arr"), "h_bigprint.c",
+                 defines={"BLEN": blen, "ROOT": root, "BP": bp, "FMT_TRIVIAL": 1, "NB": 8, "DEPTH": 2}, sources=("parser",), with_print=True,
+                 unwindset={"_advance_parsing.0": 8, "_parse_integer.0": 9, "memcmp.0": 4,
+                            "_binson_to_string_cb.0": blen + 2, "_binson_print_cb.0": blen + 2},
+                 unwind=20, checks="func", timeout=timeout, mem_gb=16, restrict_fp=rfp,
+                 tags={"family": "H-PRINT-BIG", "what": "one bytes value of %d bytes: hex loop unwound completely" % blen, "object_bits": 8},
+                 group="h_bigprint.%d" % bp)
+
+
+def rank_queries():
+    """H-RANK: one inductive ranking step per counting for-loop of the current source (tools/rank_instrument.py)"""
+    import os, sys as _sys
+    from .core import REPO, SRC, VERIF
+    from . import shapes
+    _sys.path.insert(0, os.path.join(VERIF, "tools"))
+    import rank_instrument
+    qs = []
+    for fileno, src in ((1, "parser"), (2, "writer")):
+        try:
+            t, k, rep = rank_instrument.transform(open(os.path.join(REPO, SRC[src])).read())
+        except OSError:
+            continue
+        for loop in range(k):
+            what = [r for r in rep if r.startswith("loop %d " % loop)][0]
+            data_bound = "verif_havoc_bound(%d," % loop in t
+            for bp in ((1, 2) if fileno == 1 and data_bound else (1,)):
+                for doc in ((("B1",) if data_bound else ("I8",)) if fileno == 1 else ("",)):
+                    defs = {"RANK_FILE": fileno, "RANK_LOOP": loop, "BP": bp, "FMT_TRIVIAL": 1, "NB": 6, "DEPTH": 2}
+                    if doc:
+                        tb, tm = shapes.scalar_bytes(doc)
+                        sk = [0x42] + tb + [0x43]
+                        mk = [1] + tm + [1]
+                        defs.update({"NB": len(sk), "SK_LEN": len(sk), "SK_BYTES": ",".join(str(x) for x in sk), "SK_MASK": ",".join(str(x) for x in mk)})
+                    cb = "_binson_print_cb" if bp == 2 else "_binson_to_string_cb"
+                    rfp = [("_advance_parsing.function_pointer_call.%d" % i, cb) for i in (1, 2, 3)] if fileno == 1 else []
+                    q = Query("rank.%s.loop%d%s%s" % (src, loop, (".to_string" if bp == 1 else ".print") if fileno == 1 else "", ".[%s]" % doc if doc else ""),
+                              "h_rank.c", defines=defs, sources=(src,), with_print=(fileno == 1), unwind=14, checks="func", timeout=600, mem_gb=2,
+                              restrict_fp=rfp, array_fs=True,
+                              tags={"family": "H-RANK", "transform": "rank", "what": what + "; counter arbitrary at the loop head, data-derived bound arbitrary 0..2^20"},
+                              group="h_rank.%s" % src)
+                    qs.append(q)
+    return qs
+
+
 def print_shapes(tier):
     from . import shapes
     out = []
@@ -1360,8 +1408,12 @@ def plan_C16(tier):
         for s in ([["GO", "F"], ["GO", "N", "F"], ["GO", "F", "F"]] if tier == "quick" else
                   [["GO", "F"], ["GO", "N", "F"], ["GO", "F", "F"], ["GO", "N", "N", "F"], ["GO", "F", "F", "F"], ["GO", "F", "N"]]):
             qs.append(shape_script_query(16, node, s, "lookup", 1, tight=True, timeout=1500))
+    # payload-proportional loops (hex dump of a bytes value, integer packing): one inductive ranking step, any trip count
+    qs += rank_queries()
     info = {
-        "rule": "termination = unwinding assertions: every loop of every query is unwound to a bound linear in n (_advance_parsing n+2, "
+        "rule": "H-RANK: every counting for-loop of the current source (regenerated copy with ranking obligations, tools/rank_instrument.py) "
+                "decreases its measure from an arbitrary loop head, data-derived bounds arbitrary up to 2^20: termination for payload lengths no "
+                "unwinding reaches. Otherwise termination = unwinding assertions: every loop of every query is unwound to a bound linear in n (_advance_parsing n+2, "
                 "lookup outer loop n/2+2, _parse_integer 9) and the solver discharges 'no further iteration'. Linear work: a counting "
                 "callback in the public cb field; tokens reported <= bytes advanced + 2 per call, from every Inv state (H-STEP, reported "
                 "only as INCONCLUSIVE if it fails), along full/skip/leave/raw traversals and lookups with symbolic names on shapes "
